@@ -36,7 +36,9 @@ def collision_obligations():
     items = SymItems('zones_map')
 
     def inv(env, k):
-        hs = env['hashes']
+        hs = next((v for v in env.values() if isinstance(v, SymDict)), None)    # the dict of hashes seen so far, whatever its name
+        if hs is None:
+            return [('a-dict-of-seen-hashes-exists', z3.BoolVal(False))]
         a, b, h = z3.Ints('q_a q_b q_h')
         return [('seen-hashes-are-distinct', z3.ForAll([a, b], z3.Implies(z3.And(0 <= a, a < b, b < k), H(a) != H(b)))),
                 ('every-seen-hash-is-recorded', z3.ForAll([a], z3.Implies(z3.And(0 <= a, a < k), z3.Select(hs.arr, H(a)) != SymDict.ABSENT), patterns=[H(a)])),
